@@ -183,7 +183,7 @@ func (ev *Evidence) fill(outcomes []*harnessOutcome, rp *Replayer, d time.Durati
 		"native_replays_run":            rp.NRun,
 		"solver": map[string]interface{}{
 			"queries": atomic.LoadInt64(&gStats.Queries), "sat": gStats.Sat, "unsat": gStats.Unsat, "unknown": gStats.Unknown,
-			"time_s": float64(gStats.Nanos) / 1e9, "restarts": gStats.Restarts, "binary": "z3 (see z3 --version)",
+			"time_s": float64(gStats.Nanos) / 1e9, "restarts": gStats.Restarts, "fresh_fallbacks": gStats.Fresh, "binary": "z3 (see z3 --version)",
 		},
 		"technique": "bounded symbolic execution of go/ssa of the real functions; SMT (z3) decides each assertion over all inputs in the stated bounds; models replayed natively",
 		"exhaustive": false,
